@@ -1,10 +1,11 @@
 """Registry: unit id -> (builder, properties served); property id -> info for the evidence file."""
-from . import u01_results, u05_arith_eval, u06_arith_literal
+from . import u01_results, u05_arith_eval, u06_arith_literal, u20_spans
 
 UNITS = {
     'U1': (u01_results.build, u01_results.PROPS),
     'U5': (u05_arith_eval.build, u05_arith_eval.PROPS),
     'U6': (u06_arith_literal.build, u06_arith_literal.PROPS),
+    'U20': (u20_spans.build, u20_spans.PROPS),
 }
 
 PROPERTIES = {
@@ -12,4 +13,5 @@ PROPERTIES = {
     'C02': {'level': 'proof'},
     'C03': {'level': 'proof'},
     'C07': {'level': 'proof'},
+    'C19': {'level': 'proof'},
 }
